@@ -27,7 +27,35 @@ import (
 	"time"
 )
 
-const verifDir = "/verif"
+// verifDir is where this framework lives (check.sh exports VERIF_DIR); repoDir is the repository
+// under test (VERIF_REPO, default /repo: a background sweep may point it at a snapshot).
+var verifDir = envOr("VERIF_DIR", "/verif")
+var repoDir = envOr("VERIF_REPO", "/repo")
+
+func envOr(k, d string) string {
+	if v := os.Getenv(k); v != "" {
+		return v
+	}
+	return d
+}
+
+// simModfile returns extra go flags: when the repository under test is not /repo the harness
+// module is built with a copy of its go.mod whose replace directive points there.
+func simModfile() []string {
+	if repoDir == "/repo" {
+		return nil
+	}
+	src := filepath.Join(verifDir, "sim", "go.mod")
+	b, err := os.ReadFile(src)
+	if err != nil {
+		fatal2("%v", err)
+	}
+	dst := filepath.Join(verifDir, "bin", fmt.Sprintf("sim-%d.mod", os.Getpid()))
+	os.WriteFile(dst, []byte(strings.Replace(string(b), "=> /repo", "=> "+repoDir, 1)), 0644)
+	sum, _ := os.ReadFile(filepath.Join(verifDir, "sim", "go.sum"))
+	os.WriteFile(strings.TrimSuffix(dst, ".mod")+".sum", sum, 0644)
+	return []string{"-modfile", dst}
+}
 
 type meta struct {
 	Name, Property, Doc, Level string
@@ -122,7 +150,7 @@ var l2Props = map[string]bool{"C09": true, "C15": true, "C16": true, "C20": true
 
 func buildL2(out string) {
 	cmd := exec.Command(filepath.Join(verifDir, "tools", "build_l2.sh"), out)
-	cmd.Env = goEnv()
+	cmd.Env = append(goEnv(), "VERIF_DIR="+verifDir, "VERIF_REPO="+repoDir)
 	var buf bytes.Buffer
 	cmd.Stdout, cmd.Stderr = &buf, &buf
 	if err := cmd.Run(); err != nil {
@@ -133,6 +161,7 @@ func buildL2(out string) {
 
 func build(out string, race bool) {
 	args := []string{"test", "-c", "-tags", "verif", "-o", out}
+	args = append(args, simModfile()...)
 	if race {
 		args = append(args, "-race")
 	}
